@@ -284,6 +284,11 @@ def assemble(
 
     except FlipJumpException as fj_exception:
         raise fj_exception
+    except RecursionError as recursion_error:
+        raise FlipJumpAssemblerException(
+            "an expression is nested too deeply to be assembled (python's recursion limit was reached while "
+            "evaluating it). split the long expression into smaller constants/labels."
+        ) from recursion_error
     except Exception as unknown_exception:
         raise FlipJumpAssemblerException(
             "Unknown exception during assembling the .fj files, please report this bug"
